@@ -94,7 +94,7 @@ def _item(i, has_name, name, n_tags):
 
 
 for _n, _r in [("get_item", Resp(200, {"id": 1, "displayName": "n", "tags": ["t"]})), ("list_items", Resp(200, [{"id": 1}])), ("get_alias", Resp(200, [{"id": 1}])),
-               ("upsert_item", Resp(201, {"code": "c"})), ("upsert_reversed", Resp(201, {"code": "c"})), ("get_flavours", Resp(200, {"code": "c"}, ctype="application/hal+json")), ("get_with_default", Resp(200, {"id": 1})), ("get_shape", Resp(200, {"r": 1})),
+               ("upsert_item", Resp(201, {"code": "c"})), ("upsert_reversed", Resp(201, {"code": "c"})), ("get_flavours", Resp(200, {"code": "c"}, ctype="application/hal+json")), ("get_vendor_item", Resp(200, {"id": 1})), ("get_with_default", Resp(200, {"id": 1})), ("get_shape", Resp(200, {"r": 1})),
                ("get_shape", Resp(200, {"side": 1}))]:
     try:
         call(_n, _r)
@@ -251,6 +251,44 @@ def tw_binary_stream(n: int, k: int) -> bool:
     r = Resp(200, _NOJSON, ctype="application/octet-stream")
     r._chunks = []
     collect(ep.DefaultClient(T(r), "http://h").get_blob())
+    return False
+
+
+def ob_vendor_json_item(i: int, has_name: bool, name: str) -> bool:
+    """
+    pre: len(name) <= 2
+    post: _
+    """
+    doc = _item(i, has_name, name, 0)
+    v, _ = call("get_vendor_item", Resp(200, dict(doc), ctype="application/vnd.acme.item+json"))
+    return isinstance(v, Item) and _norm(U(v)) == _norm(doc)
+
+
+def tw_vendor_json_item(i: int, has_name: bool, name: str) -> bool:
+    """
+    pre: len(name) <= 2
+    post: _
+    """
+    call("get_vendor_item", Resp(200, {"id": i}, ctype="application/vnd.acme.item+json"))
+    return False
+
+
+def ob_vendor_json_string(s: str) -> bool:
+    """
+    pre: len(s) <= 2
+    post: _
+    """
+    # a JSON document that is a string: the caller gets the decoded string, not the document's text
+    v, _ = call("get_vendor_token", Resp(200, s, text="<quoted JSON text>", ctype="application/vnd.acme.token+json"))
+    return v == s
+
+
+def tw_vendor_json_string(s: str) -> bool:
+    """
+    pre: len(s) <= 2
+    post: _
+    """
+    call("get_vendor_token", Resp(200, s, text="<quoted JSON text>", ctype="application/vnd.acme.token+json"))
     return False
 
 
